@@ -17,7 +17,9 @@ an allocator and the live roots (every input a caller built, every result a pars
 * **no cross-call state**: along every history of parses (successful or failing), caller mutations of
   objects reached through results, attribute assignments and copies, the declarations stay what they were
   (`C19_history_preserves_declaration`), hence a parse after the history returns what it returns in a
-  world that has seen nothing (`C19_history_independent`).
+  world that has seen nothing — stated against a specification of the parse that has no process state at all
+  (`World.callSpec`), proved from an invariant of the process state the parse reads and writes (`run_procOK`), and partial:
+  outside the known defect `staleParserOptions` (`C19_history_independent_partial`).
 
 All statements are for every environment of declarations, every type of the fragment, every input value,
 every history; no bound on sizes, depths or lengths.  Scope of the default clauses, as in the property:
@@ -38,15 +40,10 @@ structure WF (w : World) : Prop where
   root_lt : ∀ i ∈ w.rootIds, i < w.next
   iso : ∀ i ∈ w.rootIds, i ∈ w.env.declIds → i ∈ w.env.leak
 
-/-- a caller-made in-place change that inserts atoms only (`l.append(9)`, `s.add(9)`, `d['k'] = 9`) -/
-def Act.atomic : Act → Prop
-  | .append v => v.mutIds = []
-  | .add v => v.mutIds = []
-  | .setkey _ v => v.mutIds = []
-
 /-- what a caller may do next: parse an input it built from new objects and from live objects (never the
-declared default objects themselves); change an object it reaches through a root; assign an atom to a
-field; copy an instance -/
+declared default objects themselves); change an object it reaches through a root — append / add / store an atom or
+another object it reaches through a root, clear, pop, delete a key —; assign an atom to a field; copy an instance;
+read an attribute -/
 def Op.Valid (w : World) : Op → Prop
   | .call _ _ bump input ro =>
       (∀ i ∈ input.mutIds, i < w.next + bump) ∧ (∀ i ∈ input.mutIds, i ∈ w.env.declIds → i ∈ w.env.leak)
@@ -55,17 +52,24 @@ def Op.Valid (w : World) : Op → Prop
       -- the new declaration's default objects are new objects — or, for the fields a subclass takes over from its
       -- base, the base's own default objects —, in the property's scope
       (∀ i ∈ Env.declIds [d], (w.next ≤ i ∧ i < w.next + bump) ∨ i ∈ w.env.declIds) ∧ Env.leak [d] = []
-  | .mutate i act => i ∈ w.rootIds ∧ act.atomic
+  | .mutate i act => i ∈ w.rootIds ∧ ∀ j ∈ act.ids, j ∈ w.rootIds
   | .setattr _ _ v => v.mutIds = []
   | .copy _ => True
+  | .getattr _ _ => True
 
 def ValidHist : World → List Op → Prop
   | _, [] => True
   | w, op :: ops => op.Valid w ∧ ValidHist (w.step op).1 ops
 
-/-- the parse itself, as a function of the declarations, the allocator position and the input only -/
+/-- the parse as the world runs it now — with the registry cache as it is, the parser's forward references resolved
+or not, the wrapper bound to whatever parser `apply_for` handed it -/
 def World.callResult (w : World) (target wrapper bump : Nat) (input : Val) (ro : ROpts := {}) : Res × St :=
-  callWith effectiveOpts ro w.env target wrapper (entriesOf input).1 (entriesOf input).2 { next := w.next + bump }
+  w.callP effectiveOpts target wrapper bump input ro
+
+/-- the parse as the *declarations alone* define it (a process that has seen nothing): the registry answers from its
+registrations, the parser resolves its forward references now, a wrapper parses with the options of its decoration -/
+def World.callSpec (w : World) (target wrapper bump : Nat) (input : Val) (ro : ROpts := {}) : Res × St :=
+  callWith declaredOpts sel false ro w.env target wrapper (entriesOf input).1 (entriesOf input).2 { next := w.next + bump }
 
 /-! ### copy_value and defaults -/
 
@@ -84,10 +88,21 @@ theorem C19_copy_fresh_general (d : Val) (s : St) :
     ∀ i ∈ (copyValue d s).1.mutIds, (s.next ≤ i ∧ i < (copyValue d s).2.next) ∨ i ∈ d.opqIds :=
   (copyValue_spec d s).2.2
 
-/-- the copy is "identical to default" as a value, and making it writes to nothing -/
-theorem C19_copy_equal (d : Val) (s : St) :
+/-- the copy is "identical to default" as a value (`==`; for defaults without data-class instances — a Schema instance
+comes back as a plain dict of its items, `C19_copy_schema_instance`), and making it writes to nothing -/
+theorem C19_copy_equal (d : Val) (s : St) (hn : d.noInst = true) :
     (copyValue d s).1.veq d = true ∧ (copyValue d s).2.writes = s.writes :=
-  ⟨copyValue_veq d s, (copyValue_spec d s).2.1⟩
+  ⟨copyValue_veq d s hn, (copyValue_spec d s).2.1⟩
+
+/-- `copy_value` of a **Schema instance** (a dict subclass, schema.py): a new *plain dict* of its items, every item
+copied; of a DataClass instance (a plain object): the instance itself. -/
+theorem C19_copy_schema_instance (j c : Nat) (k0 : String) (ks : List String) (x0 : Val) (xs : List Val) (s : St) :
+    (copyValue (.node j (.inst c true) (k0 :: ks) (x0 :: xs)) s).1
+        = .node (copyList xs s).2.next .dict ks (copyList xs s).1
+    ∧ (copyValue (.node j (.inst c false) (k0 :: ks) (x0 :: xs)) s).1 = .node j (.inst c false) (k0 :: ks) (x0 :: xs) := by
+  constructor
+  · simp only [copyValue]
+  · simp [copyValue, Kind.copied, Kind.base]
 
 /-- `get_default`: plain default, shared-object factory, fresh-object factory alike hand out objects
 allocated by this very call (or the declared default's opaque objects). -/
@@ -139,7 +154,7 @@ theorem C19_call_frame (w : World) (target wrapper bump : Nat) (input : Val) (ro
     (∀ i ∈ r.2.writes, w.next + bump ≤ i ∧ i < r.2.next) ∧
     (∀ v, r.1 = .ok v → ∀ i ∈ v.mutIds,
         i ∈ input.mutIds ∨ i ∈ w.env.leak ++ ro.opqIds ∨ (w.next + bump ≤ i ∧ i < r.2.next)) := by
-  have h := callWith_fr effectiveOpts ro w.env (input.mutIds ++ (w.env.leak ++ ro.opqIds))
+  have h := callWith_fr effectiveOpts w.proc.resolve (w.proc.resolved.contains target) ro w.env (input.mutIds ++ (w.env.leak ++ ro.opqIds))
     (fun i hi => List.mem_append_right _ (List.mem_append_left _ hi))
     (fun i hi => List.mem_append_right _ (List.mem_append_right _ hi))
     target wrapper (entriesOf input).1 (entriesOf input).2
@@ -150,7 +165,7 @@ theorem C19_call_frame (w : World) (target wrapper bump : Nat) (input : Val) (ro
     · simp at h'
     · exact h'
   · intro v hv i hi
-    have := h.out i (by unfold World.callResult at hv; rw [hv]; exact hi)
+    have := h.out i (by unfold World.callResult World.callP at hv; rw [hv]; exact hi)
     rcases this with h' | h'
     · rcases List.mem_append.mp h' with h'' | h''
       · exact Or.inl h''
@@ -164,28 +179,13 @@ theorem leak_sub_declIds (E : Env) : ∀ i ∈ E.leak, i ∈ E.declIds := by
   obtain ⟨v, hv, h⟩ := mem_opqIdsL.mp hi
   exact mem_mutIdsL.mpr ⟨v, hv, opqIds_sub_mutIds v i h⟩
 
-theorem rootVals_append (env : Env) (n : Nat) (rs : List (Option Val)) (v : Val) :
-    ({ env := env, next := n, roots := rs ++ [some v] } : World).rootVals
-      = ({ env := env, next := n, roots := rs } : World).rootVals ++ [v] := by
-  simp [World.rootVals, List.filterMap_append]
-
-theorem rootVals_append_none (env : Env) (n : Nat) (rs : List (Option Val)) :
-    ({ env := env, next := n, roots := rs ++ [none] } : World).rootVals
-      = ({ env := env, next := n, roots := rs } : World).rootVals := by
-  simp [World.rootVals, List.filterMap_append]
-
-theorem mem_rootIds_append {env : Env} {n : Nat} {rs : List (Option Val)} {v : Val} {i : Nat} :
-    i ∈ ({ env := env, next := n, roots := rs ++ [some v] } : World).rootIds
-      ↔ i ∈ ({ env := env, next := n, roots := rs } : World).rootIds ∨ i ∈ v.mutIds := by
-  simp [World.rootIds, rootVals_append, mutIdsL_append, mutIdsL]
-
 theorem mem_rootIds_push {w : World} {v : Val} {i : Nat} :
     i ∈ ({ w with roots := w.roots ++ [some v] } : World).rootIds ↔ i ∈ w.rootIds ∨ i ∈ v.mutIds := by
-  cases w; exact mem_rootIds_append
+  simp [World.rootIds, World.rootVals, List.filterMap_append, mutIdsL_append, mutIdsL]
 
 theorem mem_rootIds_push_none {w : World} {i : Nat} :
     i ∈ ({ w with roots := w.roots ++ [none] } : World).rootIds ↔ i ∈ w.rootIds := by
-  cases w; simp [World.rootIds, rootVals_append_none]
+  simp [World.rootIds, World.rootVals, List.filterMap_append]
 
 /-- what `step` does on a parse, in a well-formed world: although every logged in-place write is applied
 to the declarations, to all earlier roots and to the input, nothing of that changes. -/
@@ -193,8 +193,10 @@ theorem step_call (w : World) (hw : WF w) (target wrapper bump : Nat) (input : V
     (hin : ∀ i ∈ input.mutIds, i < w.next + bump) :
     w.step (.call target wrapper bump input ro) =
       (match w.callResult target wrapper bump input ro with
-       | (.ok r, s1) => ({ w with next := s1.next, roots := w.roots ++ [some input] ++ [some r] }, Outcome.ok)
-       | (.error e, s1) => ({ w with next := s1.next, roots := w.roots ++ [some input] ++ [none] }, Outcome.ofErr e)) := by
+       | (.ok r, s1) => ({ w with next := s1.next, roots := w.roots ++ [some input] ++ [some r],
+                                   proc := w.procAfter target }, Outcome.ok)
+       | (.error e, s1) => ({ w with next := s1.next, roots := w.roots ++ [some input] ++ [none],
+                                      proc := w.procAfter target }, Outcome.ofErr e)) := by
   have hfr := C19_call_frame w target wrapper bump input ro
   simp only at hfr
   have happ : ∀ ws : List Nat, (∀ i ∈ ws, w.next + bump ≤ i) →
@@ -308,6 +310,18 @@ theorem WF_push_none (w : World) (hw : WF w) (n' : Nat) (hn : w.next ≤ n') :
 
 /-- a caller's write with atoms, to an object that is no declared default object, keeps the world
 well-formed and leaves the declarations alone -/
+theorem writeAll_WF' (S : List Nat) (w : World) (hw : WF w) (i : Nat)
+    (f : Kind → List String → List Val → Option (List String × List Val))
+    (hi : i ∉ w.env.declIds) (hf : AddsOnly S f) (hS : ∀ j ∈ S, j ∈ w.rootIds) :
+    WF (w.writeAll i f) ∧ (w.writeAll i f).env = w.env ∧ (∀ j ∈ (w.writeAll i f).rootIds, j ∈ w.rootIds) := by
+  have henv := writeAll_env_eq w i f hi
+  have hsub : ∀ j ∈ (w.writeAll i f).rootIds, j ∈ w.rootIds := fun j hj =>
+    (writeAll_rootIds_sub' S w i f hf j hj).elim id (hS j)
+  refine ⟨⟨fun j hj => ?_, fun j hj => ?_, fun j hj hd => ?_⟩, henv, hsub⟩
+  · rw [henv] at hj; exact hw.decl_lt j hj
+  · exact hw.root_lt j (hsub j hj)
+  · rw [henv] at hd ⊢; exact hw.iso j (hsub j hj) hd
+
 theorem writeAll_WF (w : World) (hw : WF w) (i : Nat) (f : Kind → List String → List Val → Option (List String × List Val))
     (hi : i ∉ w.env.declIds) (hf : AddsNoIds f) :
     WF (w.writeAll i f) ∧ (w.writeAll i f).env = w.env ∧ (∀ j ∈ (w.writeAll i f).rootIds, j ∈ w.rootIds) := by
@@ -340,12 +354,16 @@ theorem root_mem (w : World) (r : Nat) (v : Val) (h : w.root r = some v) : some 
     subst h
     exact List.mem_of_getElem? hr
 
+/-- well-formedness does not look at the process state -/
+theorem WF_proc {w : World} (h : WF w) (p : Proc) : WF { w with proc := p } :=
+  ⟨h.decl_lt, h.root_lt, h.iso⟩
+
 theorem step_setattr (w : World) (r : Nat) (fname : String) (v : Val) :
     w.step (.setattr r fname v) =
       (match w.root r with
-       | some (.node i (.inst k) ks xs) =>
+       | some (.node i (.inst k b) ks xs) =>
            (match w.env[k]? with
-            | some d => ((setattrWrites d fname v (.node i (.inst k) ks xs)).foldl (fun w p => w.writeAll p.1 p.2) w, Outcome.ok)
+            | some d => ((setattrWrites d fname v (.node i (.inst k b) ks xs)).foldl (fun w p => w.writeAll p.1 p.2) w, Outcome.ok)
             | none => (w, Outcome.skip))
        | _ => (w, Outcome.skip)) := rfl
 
@@ -371,6 +389,69 @@ theorem leak_append (E E' : Env) : Env.leak (E ++ E') = E.leak ++ Env.leak E' :=
 
 theorem step_declare (w : World) (d : Decl) (bump : Nat) :
     w.step (.declare d bump) = ({ w with env := w.env ++ [d], next := w.next + bump }, Outcome.ok) := rfl
+
+theorem readAttr_ids (b : Bool) (fname : String) (j : Nat) (k : Kind) (ks : List String) (xs : List Val) (v : Val)
+    (h : readAttr b fname ks xs = some v) : ∀ i ∈ v.mutIds, i ∈ (Val.node j k ks xs).mutIds := by
+  intro i hi
+  apply mutIdsL_sub_node
+  unfold readAttr at h
+  split at h
+  · rename_i v' hv'
+    cases h
+    split at hv'
+    · have hm := lookupKV_mem _ _ _ _ hv'
+      exact mem_mutIdsL.mpr ⟨v, List.mem_of_mem_drop hm, hi⟩
+    · cases hv'
+  · split at h
+    · rename_i a aks avs rest
+      have hm := lookupKV_mem _ _ _ _ h
+      simp only [mutIdsL, List.mem_append]
+      exact Or.inl (mutIdsL_sub_node (mem_mutIdsL.mpr ⟨v, hm, hi⟩))
+    · cases h
+
+theorem step_getattr (w : World) (r : Nat) (fname : String) : w.step (.getattr r fname) = w.getattr r fname := rfl
+
+/-- reading an attribute hands out an object the instance holds, or a fresh copy of a deferred default -/
+theorem getattr_WF (w : World) (hw : WF w) (hs : InScope w.env) (r : Nat) (fname : String) :
+    WF (w.getattr r fname).1 ∧ (w.getattr r fname).1.env = w.env ∧ (w.getattr r fname).1.proc = w.proc := by
+  have hfail : WF ({ w with roots := w.roots ++ [none] } : World) := WF_push_none w hw w.next (Nat.le_refl _)
+  unfold World.getattr
+  simp only
+  split
+  · rename_i j k b ks xs hroot
+    have hmem := root_mem w r _ hroot
+    split
+    · exact ⟨hfail, rfl, rfl⟩
+    · rename_i d hd
+      split
+      · exact ⟨hfail, rfl, rfl⟩
+      · rename_i f hf
+        split
+        · rename_i v hv
+          refine ⟨WF_push w hw w.next (Nat.le_refl _) v (fun i hi => ?_) (fun i hi hdcl => ?_), rfl, rfl⟩
+          · exact hw.root_lt i (rootIds_of_root hmem i (readAttr_ids b fname j _ ks xs v hv i hi))
+          · exact hw.iso i (rootIds_of_root hmem i (readAttr_ids b fname j _ ks xs v hv i hi)) hdcl
+        · split
+          · have hfr := getDefaultAt_fr true f.defer {} f.dflt { next := w.next }
+            have hfm : f ∈ d.fields := List.mem_of_find?_eq_some hf
+            have hleak : ∀ i ∈ f.dflt.opqIds ++ ({} : ROpts).opqIds, False := by
+              intro i hi
+              simp only [ROpts.opqIds, List.append_nil] at hi
+              have := leak_of_field hd f hfm i hi
+              rw [hs] at this; cases this
+            split
+            · rename_i v s1 hg
+              rw [hg] at hfr
+              refine ⟨WF_push w hw s1.next hfr.mono v (fun i hi => ?_) (fun i hi hdcl => ?_), rfl, rfl⟩
+              · rcases hfr.out i (by simpa [optIds] using hi) with h | h
+                · exact (hleak i h).elim
+                · exact h.2
+              · rcases hfr.out i (by simpa [optIds] using hi) with h | h
+                · exact (hleak i h).elim
+                · have := hw.decl_lt i hdcl; simp at h; omega
+            · exact ⟨hfail, rfl, rfl⟩
+          · exact ⟨hfail, rfl, rfl⟩
+  · exact ⟨hfail, rfl, rfl⟩
 
 /-- every step of a valid history keeps the world well-formed; the declarations made so far stay exactly
 what they were (a `declare` appends one, nothing else touches `env`) -/
@@ -414,9 +495,9 @@ theorem step_WF (w : World) (hw : WF w) (hs : InScope w.env) (op : Op) (hv : op.
       have hw1 : WF { w with next := s1.next, roots := w.roots ++ [some input] } :=
         WF_push w hw s1.next (by have := hfr.1; omega) input (fun i hi => by have := hin i hi; have := hfr.1; omega) hnd
       cases r with
-      | error e => exact ⟨WF_push_none _ hw1 s1.next (Nat.le_refl _), Or.inl rfl⟩
+      | error e => exact ⟨WF_proc (WF_push_none _ hw1 s1.next (Nat.le_refl _)) _, Or.inl rfl⟩
       | ok v =>
-        refine ⟨WF_push _ hw1 s1.next (Nat.le_refl _) v (fun i hi => ?_) (fun i hi hd => ?_), Or.inl rfl⟩
+        refine ⟨WF_proc (WF_push _ hw1 s1.next (Nat.le_refl _) v (fun i hi => ?_) (fun i hi hd => ?_)) _, Or.inl rfl⟩
         · rcases hfr.2.2 v rfl i hi with h | h | h
           · have := hin i h; have := hfr.1; omega
           · simp [hleak, hro] at h
@@ -427,8 +508,7 @@ theorem step_WF (w : World) (hw : WF w) (hs : InScope w.env) (op : Op) (hv : op.
           · have := hw.decl_lt i hd; omega
   | mutate i act =>
     obtain ⟨hi, ha⟩ := hv
-    have hf : AddsNoIds act.apply := act_addsNoIds act (by cases act <;> exact ha)
-    obtain ⟨h1, h2, _⟩ := writeAll_WF w hw i act.apply (hnotdecl i hi) hf
+    obtain ⟨h1, h2, _⟩ := writeAll_WF' act.ids w hw i act.apply (hnotdecl i hi) (act_addsOnly act) ha
     exact ⟨h1, Or.inl h2⟩
   | setattr r fname v =>
     have hv' : v.mutIds = [] := hv
@@ -484,6 +564,11 @@ theorem step_WF (w : World) (hw : WF w) (hs : InScope w.env) (op : Op) (hv : op.
             · exact hw.iso i (rootIds_of_root hmem i h) hd
             · have := hw.decl_lt i hd; simp only at h; omega
 
+  | getattr r fname =>
+    rw [step_getattr]
+    obtain ⟨h1, h2, _⟩ := getattr_WF w hw hs r fname
+    exact ⟨h1, Or.inl h2⟩
+
 /-- **No cross-call state through the declarations.**  Along every valid history — parses that succeed
 or fail (under any running options), the caller changing objects it reaches through results, assigning
 attributes, copying instances, *declaring further classes, subclasses and variants* — every declaration made
@@ -521,31 +606,168 @@ theorem C19_history_preserves_declaration (ops : List Op) :
         obtain ⟨ds1, hd1⟩ := hpre
         exact ⟨⟨ds1 ++ ds2, by rw [hd2, hd1, List.append_assoc]⟩, hsc, hwf⟩
 
+/-! ### process state: the registry cache and the lazily resolved forward references
+
+`World.proc` is read by every parse (`World.callP`) and written by every parse (`World.procAfter`).  History
+independence is an invariant argument: in every reachable state the cache answers what the registrations answer and
+a parser marked "resolved" can indeed resolve — so the lookups of a parse answer as in the initial state. -/
+
+/-- the invariant of the process state -/
+structure ProcOK (w : World) : Prop where
+  cache : ∀ e ∈ w.proc.regCache, e.2 = sel e.1
+  resolved : ∀ k ∈ w.proc.resolved, ∃ d, w.env[k]? = some d ∧ d.scoped w.env.length = true
+
+theorem same_sel : ∀ (a b : Ty), a.same b = true → sel a = sel b := by
+  intro a b h
+  cases a <;> cases b <;> simp [Ty.same] at h <;> try rfl
+  · rename_i k k'; subst h; rfl
+  all_goals (try (simp [sel]))
+
+theorem resolve_eq_sel (p : Proc) (h : ∀ e ∈ p.regCache, e.2 = sel e.1) : p.resolve = sel := by
+  funext t
+  unfold Proc.resolve
+  cases hf : p.regCache.find? (fun e => e.1.same t) with
+  | none => rfl
+  | some e =>
+    simp only
+    have hm := List.mem_of_find?_eq_some hf
+    have hs := List.find?_some hf
+    rw [h e hm]
+    exact same_sel e.1 t hs
+
+theorem declScoped_mono {d : Decl} {n m : Nat} (h : d.scoped n = true) (hm : n ≤ m) : d.scoped m = true := by
+  simp only [Decl.scoped, Bool.and_eq_true, List.all_eq_true] at h ⊢
+  refine ⟨fun f hf => scoped_mono (h.1 f hf) hm, ?_⟩
+  cases hr : d.ret with
+  | none => rfl
+  | some rt => have := h.2; rw [hr] at this; exact scoped_mono this hm
+
+theorem procAfter_ok (w : World) (h : ProcOK w) (target : Nat) :
+    ProcOK { w with proc := w.procAfter target } := by
+  unfold World.procAfter
+  cases hd : w.env[target]? with
+  | none => exact ⟨h.cache, h.resolved⟩
+  | some d =>
+    refine ⟨?_, ?_⟩
+    · intro e he
+      simp only [List.mem_append, List.mem_map] at he
+      rcases he with ⟨f, _, rfl⟩ | he
+      · simp only; rw [resolve_eq_sel w.proc h.cache]
+      · exact h.cache e he
+    · intro k hk
+      simp only at hk
+      split at hk
+      · rename_i hsc
+        rcases List.mem_cons.mp hk with rfl | hk
+        · exact ⟨d, hd, hsc⟩
+        · exact h.resolved k hk
+      · exact h.resolved k hk
+
+theorem procOK_of_ext {w w' : World} (h : ProcOK w) (hp : w'.proc = w.proc) (he : ∃ ds, w'.env = w.env ++ ds) :
+    ProcOK w' := by
+  obtain ⟨ds, he⟩ := he
+  refine ⟨by rw [hp]; exact h.cache, ?_⟩
+  intro k hk
+  rw [hp] at hk
+  obtain ⟨d, hd, hsc⟩ := h.resolved k hk
+  have hlt : k < w.env.length := (List.getElem?_eq_some_iff.mp hd).1
+  exact ⟨d, by rw [he, List.getElem?_append_left hlt]; exact hd, declScoped_mono hsc (by rw [he]; simp)⟩
+
+theorem foldl_writeAll_proc (ps : List (Nat × (Kind → List String → List Val → Option (List String × List Val)))) :
+    ∀ w : World, (ps.foldl (fun w p => w.writeAll p.1 p.2) w).proc = w.proc := by
+  induction ps with
+  | nil => intro w; rfl
+  | cons p ps ih => intro w; simp only [List.foldl]; rw [ih]; rfl
+
+/-- only a parse writes the process state -/
+theorem step_proc_eq (w : World) (op : Op) (h : ∀ t wr b i ro, op ≠ .call t wr b i ro) :
+    (w.step op).1.proc = w.proc := by
+  cases op with
+  | call t wr b i ro => exact absurd rfl (h t wr b i ro)
+  | declare d bump => rfl
+  | mutate i act => rfl
+  | setattr r fname v =>
+    rw [step_setattr]
+    split
+    · split
+      · exact foldl_writeAll_proc _ w
+      · rfl
+    · rfl
+  | copy r =>
+    rw [step_copy]
+    split
+    · split <;> rfl
+    · rfl
+  | getattr r fname =>
+    rw [step_getattr]
+    unfold World.getattr
+    simp only
+    repeat' split
+    all_goals rfl
+
+/-- the process state stays within the invariant along every step (declaring more classes included) -/
+theorem step_procOK (w : World) (hw : WF w) (hs : InScope w.env) (h : ProcOK w) (op : Op) (hv : op.Valid w) :
+    ProcOK (w.step op).1 := by
+  have hext : ∃ ds, (w.step op).1.env = w.env ++ ds := by
+    rcases (step_WF w hw hs op hv).2 with he | ⟨d, he, _⟩
+    · exact ⟨[], by simp [he]⟩
+    · exact ⟨[d], he⟩
+  cases op with
+  | call target wrapper bump input ro =>
+    rw [step_call w hw target wrapper bump input ro hv.1]
+    have hp := procAfter_ok w h target
+    cases hr : w.callResult target wrapper bump input ro with
+    | mk r s1 =>
+      cases r with
+      | ok v => exact ⟨hp.cache, hp.resolved⟩
+      | error e => exact ⟨hp.cache, hp.resolved⟩
+  | declare d bump => exact procOK_of_ext h (step_proc_eq w _ (by intros; simp)) hext
+  | mutate i act => exact procOK_of_ext h (step_proc_eq w _ (by intros; simp)) hext
+  | setattr r fname v => exact procOK_of_ext h (step_proc_eq w _ (by intros; simp)) hext
+  | copy r => exact procOK_of_ext h (step_proc_eq w _ (by intros; simp)) hext
+  | getattr r f => exact procOK_of_ext h (step_proc_eq w _ (by intros; simp)) hext
+
+/-- along every valid history: declarations only grow at the end, the world stays well-formed and in scope
+(`C19_history_preserves_declaration`), and the process state stays within its invariant -/
+theorem run_procOK (ops : List Op) :
+    ∀ (w : World), WF w → InScope w.env → ProcOK w → ValidHist w ops → ProcOK (w.run ops).1 := by
+  induction ops with
+  | nil => intro w _ _ h _; exact h
+  | cons op ops ih =>
+    intro w hw hs h hv
+    obtain ⟨h1, h2⟩ := step_WF w hw hs op hv.1
+    have hs1 : InScope (w.step op).1.env := by
+      unfold InScope at hs ⊢
+      rcases h2 with he | ⟨d, he, hl⟩
+      · rw [he]; exact hs
+      · rw [he, leak_append, hs, hl]; rfl
+    have := ih (w.step op).1 h1 hs1 (step_procOK w hw hs h op hv.1) hv.2
+    unfold World.run World.runWith
+    cases hst : World.step w op with
+    | mk w1 o =>
+      rw [hst] at this
+      simp only
+      cases hrun : World.runWith World.step w1 ops with
+      | mk w2 os =>
+        have e : World.run w1 ops = (w2, os) := hrun
+        rw [e] at this
+        exact this
+
 /-- **What a declaration accepts is fixed by its own declaration.**  Declaring further classes — a subclass of
 an earlier class with other Options (`case_insensitive`, …), a variant, another function — leaves every parse of
 an earlier declaration exactly what it was: for an environment `E` without dangling forward references
 (`Env.closed`), a target of `E` parses the same in `E` and in `E ++ ds`, for every `ds`. -/
 theorem C19_declaration_independent (w : World) (ds : Env) (hE : w.env.closed = true)
     (target : Nat) (ht : target < w.env.length) (wrapper bump : Nat) (input : Val) (ro : ROpts) :
-    ({ w with env := w.env ++ ds } : World).callResult target wrapper bump input ro
-      = w.callResult target wrapper bump input ro := by
-  unfold World.callResult
-  exact callWith_append effectiveOpts ro w.env ds hE target ht wrapper _ _ _
-
-/-- **The outcome of a parse depends only on the declaration, the options and the input.**  After any
-valid history (earlier parses that succeeded or failed under whatever running options, caller mutations,
-attribute assignments, copies, further declarations), a parse of a declaration that existed at the start
-returns exactly what it returns in the initial world with the allocator at the same position — same
-success or failure, same value, same aliasing with its input. -/
-theorem C19_history_independent (ops : List Op) (w : World) (hw : WF w) (hs : InScope w.env)
-    (hE : w.env.closed = true) (hv : ValidHist w ops)
-    (target : Nat) (ht : target < w.env.length) (wrapper bump : Nat) (input : Val) (ro : ROpts) :
-    (w.run ops).1.callResult target wrapper bump input ro
-      = ({ w with next := (w.run ops).1.next } : World).callResult target wrapper bump input ro := by
-  obtain ⟨ds, hds⟩ := (C19_history_preserves_declaration ops w hw hs hv).1
-  unfold World.callResult
-  rw [hds]
-  exact callWith_append effectiveOpts ro w.env ds hE target ht wrapper _ _ _
+    ({ w with env := w.env ++ ds } : World).callSpec target wrapper bump input ro
+      = w.callSpec target wrapper bump input ro := by
+  unfold World.callSpec
+  rw [callWith_append declaredOpts sel ro w.env ds hE target ht wrapper _ _ _ false]
+  -- in a closed environment the forward references of the target resolve: checking now or having checked is the same
+  have h0 := callWith_append declaredOpts sel ro w.env [] hE target ht wrapper
+    (entriesOf input).1 (entriesOf input).2 { next := w.next + bump } false
+  simp only [List.append_nil] at h0
+  exact h0.symm
 
 /-! ### the `__parsers__` cache (known finding `parser-cache-options`)
 
@@ -554,7 +776,7 @@ Full statement (false of the unchanged code):
 — a wrapper made by `utype.parse(raw, options=O)` parses with `O`, whatever was decorated before. -/
 
 /-- `utype.parse(raw)` *without* options after an earlier `utype.parse(raw, options=…)` of the same function:
-`apply_for` hands back the cached parser, built with the earlier options (base.py:54-58). -/
+`apply_for` hands back the cached parser, built with the earlier options (base.py:57-63). -/
 def KnownDefect.staleParserOptions (ws : List (Option Opts)) (j : Nat) : Bool :=
   (ws[j]? == some none) && (ws.take j).any Option.isSome
 
@@ -613,17 +835,68 @@ def envW : Env := [{ kind := .func, fields := [{ name := "a", ty := .int, dflt :
 
 /-- … and at the level of outcomes: `f2('12')` fails although `f2` was declared without options. -/
 theorem C19_stale_options_outcome_witness :
-    (callWith effectiveOpts {} envW 0 1 ["a"] [.str "12"] { next := 0 }).1.isOk = false ∧
-    (callWith declaredOpts {} envW 0 1 ["a"] [.str "12"] { next := 0 }).1.isOk = true := by decide
+    (callWith effectiveOpts sel false {} envW 0 1 ["a"] [.str "12"] { next := 0 }).1.isOk = false ∧
+    (callWith declaredOpts sel false {} envW 0 1 ["a"] [.str "12"] { next := 0 }).1.isOk = true := by decide
 
 /-- non-vacuity: declarations outside the defect exist -/
 example : KnownDefect.staleParserOptions [none, some { strict := true }] 1 = false ∧
     KnownDefect.staleParserOptions [none, none] 1 = false := by decide
 
+theorem callWith_opts_congr (o1 o2 : List (Option Opts) → Nat → Opts) (L : Ty → Cid) (rb : Bool) (ro : ROpts) (E : Env)
+    (target wrapper : Nat) (ks : List String) (xs : List Val) (s : St)
+    (h : ∀ d, E[target]? = some d → d.kind = .func → o1 d.wrappers wrapper = o2 d.wrappers wrapper) :
+    callWith o1 L rb ro E target wrapper ks xs s = callWith o2 L rb ro E target wrapper ks xs s := by
+  simp only [callWith]
+  cases hd : E[target]? with
+  | none => rfl
+  | some d =>
+    simp only
+    split
+    · rfl
+    · split
+      · rename_i hk
+        have hk' : d.kind = .func := by simpa using hk
+        rw [h d hd hk']
+      · rfl
+
+/-- **The outcome of a parse depends only on the declaration, the options and the input** — outside the known
+defect.  Full statement (false of the unchanged code, `C19_stale_options_outcome_witness`): the same without `hk`.
+
+After any valid history — earlier parses that succeeded or failed under whatever running options (each of which read
+and wrote the registry cache and the forward-reference state), caller mutations, attribute assignments, copies, further
+declarations — a parse of a declaration that existed at the start returns exactly what the declarations alone define
+(`callSpec`: registry without cache, forward references unresolved, wrapper bound to its declared options), with the
+allocator at the same position.  `hk`: the wrapper is not one that `apply_for` served from the `__parsers__` cache with
+another decoration's options. -/
+theorem C19_history_independent_partial (ops : List Op) (w : World) (hw : WF w) (hs : InScope w.env)
+    (hE : w.env.closed = true) (hp : ProcOK w) (hv : ValidHist w ops)
+    (target : Nat) (ht : target < w.env.length) (wrapper bump : Nat) (input : Val) (ro : ROpts)
+    (hk : ∀ d, w.env[target]? = some d → d.kind = .func →
+      wrapper < d.wrappers.length ∧ KnownDefect.staleParserOptions d.wrappers wrapper = false) :
+    (w.run ops).1.callResult target wrapper bump input ro
+      = ({ w with next := (w.run ops).1.next } : World).callSpec target wrapper bump input ro := by
+  obtain ⟨ds, hds⟩ := (C19_history_preserves_declaration ops w hw hs hv).1
+  have hpo := run_procOK ops w hw hs hp hv
+  unfold World.callResult World.callP World.callSpec
+  rw [hds, resolve_eq_sel _ hpo.cache,
+    callWith_append effectiveOpts sel ro w.env ds hE target ht wrapper _ _ _ _]
+  have h0 := callWith_append declaredOpts sel ro w.env [] hE target ht wrapper
+    (entriesOf input).1 (entriesOf input).2 { next := (w.run ops).1.next + bump } false
+  simp only [List.append_nil] at h0
+  rw [h0]
+  exact callWith_opts_congr _ _ sel true ro w.env target wrapper _ _ _
+    (fun d hd hf => C19_wrapper_options_partial d.wrappers wrapper (hk d hd hf).1 (hk d hd hf).2)
+
+/-- the hypotheses are satisfiable in the initial state: nothing cached, nothing resolved -/
+theorem procOK_init (w : World) (h : w.proc = {}) : ProcOK w := by
+  refine ⟨?_, ?_⟩
+  · intro e he; rw [h] at he; simp at he
+  · intro k hk; rw [h] at hk; simp at hk
+
 /-! ### `Schema.copy()` (fixed finding `copy-shares-dict`) -/
 
 def attrsId : Val → Option Nat
-  | .node _ (.inst _) _ (.node a .dict _ _ :: _) => some a
+  | .node _ (.inst _ _) _ (.node a .dict _ _ :: _) => some a
   | _ => none
 
 /-- after the fix a copy is a new instance with a new attribute dict; it shares only the field values -/
@@ -635,14 +908,14 @@ theorem C19_copy_owns_its_dict (v c : Val) (s s' : St) (h : schemaCopy v s = (.o
   refine ⟨?_, fun i hi => (hfr.out i hi).imp id (fun h => h.1)⟩
   unfold schemaCopy at h
   split at h
-  · simp only [Prod.mk.injEq, Except.ok.injEq] at h
+  · simp only [mk, fill, Bool.false_eq_true, ↓reduceIte, Prod.mk.injEq, Except.ok.injEq] at h
     obtain ⟨rfl, _⟩ := h
     refine ⟨_, rfl, fun hm => ?_⟩
     have := hlt _ hm
     omega
   · simp at h
 
-def instW : Val := .node 0 (.inst 0) ["__dict__", "a"] [.node 1 .dict ["a", "p"] [.int 1, .int 0], .int 1]
+def instW : Val := .node 0 (.inst 0 true) ["__dict__", "a"] [.node 1 .dict ["a", "p"] [.int 1, .int 0], .int 1]
 
 /-- the behaviour before the fix: the copy's attribute dict *is* the original's -/
 theorem C19_legacy_copy_alias_witness :
@@ -689,7 +962,7 @@ theorem C19_setattr_on_copy_isolated (w : World) (hw : WF w) (r : Nat) (v c : Va
     split
     · refine foldl_writeAll_last _ w.roots (fun p hp hin => ?_) _ _ rfl
       have hlt := hw.root_lt p.1 hin
-      rcases setattrWrites_targets _ fname x _ _ _ _ _ _ _ p hp with h | h <;> omega
+      rcases setattrWrites_targets _ fname x _ _ _ _ _ _ _ _ p hp with h | h <;> omega
     · exact ⟨_, rfl⟩
   · simp at hc
 
@@ -703,14 +976,11 @@ def in0 : Val := .node 2 .dict ["n"] [.int 1]
 def in0' : Val := .node 9 .dict ["n"] [.int 1]
 /-- `A(n=1)`; `A(n='x')` (fails); mutate the first result's `a[1]` in place; `A(n=3)` -/
 def hist0 : List Op :=
-  [.call 0 0 1 in0, .call 0 0 1 (.node 9 .dict ["n"] [.str "x"]), .mutate 4 (.append (.int 9)),
-   .call 0 0 1 (.node 12 .dict ["n"] [.int 3])]
+  [.call 0 0 1 in0, .call 0 0 1 (.node 9 .dict ["n"] [.str "x"]), .mutate 8 (.append (.int 9)),
+   .call 0 0 1 (.node 16 .dict ["n"] [.int 3])]
 
 example : InScope env0 := by unfold InScope; decide
-example : (w0.run hist0).2 = [.ok, .perr, .ok, .ok] := by decide
-
-instance (act : Act) : Decidable act.atomic := by
-  cases act <;> unfold Act.atomic <;> infer_instance
+example : (w0.run hist0).2 = [.ok, .perr, .ok, .ok] := by decide +kernel
 
 instance (w : World) (op : Op) : Decidable (op.Valid w) := by
   cases op <;> unfold Op.Valid <;> infer_instance
@@ -720,12 +990,12 @@ instance decValidHist : (w : World) → (ops : List Op) → Decidable (ValidHist
   | w, op :: ops => @instDecidableAnd _ _ inferInstance (decValidHist (w.step op).1 ops)
 
 example : WF w0 := ⟨by decide, by decide, by decide⟩
-example : ValidHist w0 hist0 := by decide
+example : ValidHist w0 hist0 := by decide +kernel
 /-- the parse after the history got a copy of the *declared* default `[1, [2]]` (ids 0, 1 untouched),
-although the first result's copy (ids 4, 3) was mutated in between; no two results share an object -/
+although the first result's copy (ids 8, 7) was mutated in between; no two results share an object -/
 example : (w0.run hist0).1.env.dfltVals.map Val.mutIds = [[0, 1]] ∧
     ((w0.run hist0).1.roots.map (fun r => r.map Val.mutIds)) =
-      [some [2], some [5, 6, 4, 3, 4, 3], some [9], none, some [12], some [15, 16, 14, 13, 14, 13]] := by decide +kernel
+      [some [2], some [4, 5, 8, 7, 8, 7], some [9], none, some [16], some [18, 19, 22, 21, 22, 21]] := by decide +kernel
 
 /-- a history with running options and a later declaration of a case-insensitive subclass:
 `A.__from__({}, Options(ignore_required=True))`; `A(n=1)`; declare `Sub(A)` with `case_insensitive`; `A()` fails
@@ -737,7 +1007,60 @@ def hist1 : List Op :=
   [.call 0 0 1 (.node 2 .dict [] []) { ignoreRequired := true }, .call 0 0 1 in0',
    .declare sub0 0, .call 0 0 1 (.node 16 .dict [] [])]
 example : env0.closed = true := by decide
-example : (w0.run hist1).2 = [.ok, .ok, .ok, .perr] := by decide
-example : ValidHist w0 hist1 := by decide
+example : (w0.run hist1).2 = [.ok, .ok, .ok, .perr] := by decide +kernel
+example : ValidHist w0 hist1 := by decide +kernel
+
+/-- the initial world of the examples satisfies the process-state invariant, and so does the world after `hist1` -/
+example : ProcOK w0 := procOK_init w0 rfl
+example : (w0.run hist1).1.proc.resolved = [0, 0, 0] ∧ (w0.run hist1).1.proc.regCache.length = 6 := by decide +kernel
+
+/-- the caller stores an object of the first result into the second (`r2.a.append(r1.a[1])`), pops from and clears the first
+result's list, reads an attribute; the parse after that still gets a copy of the declared default `[1, [2]]` -/
+def hist2 : List Op :=
+  [.call 0 0 1 in0, .call 0 0 1 in0',
+   .mutate 15 (.append (.node 7 .list [] [.int 2])),
+   .mutate 8 .popLast, .mutate 8 .clear,
+   .getattr 1 "a",
+   .call 0 0 1 (.node 16 .dict ["n"] [.int 3])]
+example : ValidHist w0 hist2 := by decide +kernel
+example : (w0.run hist2).2 = [.ok, .ok, .ok, .ok, .ok, .ok, .ok] ∧
+    (w0.run hist2).1.env.dfltVals.map Val.mutIds = [[0, 1]] ∧
+    ((w0.run hist2).1.roots.map (fun r => r.map Val.mutIds)) =
+      [some [2], some [4, 5, 8, 8], some [9], some [11, 12, 15, 14, 7, 15, 14, 7], some [8], some [16],
+       some [18, 19, 22, 21, 22, 21]] := by decide +kernel
+
+/-- a deferred default (`Field(defer_default=True)`): the parse does not fill it in, every attribute read computes a new
+copy (ids 8/7, 10/9, 17/16 — the declared default keeps ids 0/1), also after one copy was changed and after a parse under
+`Options(defer_default=True)` -/
+def envD : Env := [{ kind := .schema, fields := [{ name := "a", ty := .bare .list, dflt := .val dfl0, defer := true }] }]
+def wD : World := { env := envD, next := 2 }
+def histD : List Op :=
+  [.call 0 0 1 (.node 2 .dict [] []), .getattr 1 "a", .getattr 1 "a", .mutate 7 (.append (.int 9)),
+   .call 0 0 1 (.node 11 .dict [] []) { deferDefault := true }, .getattr 1 "a"]
+example : WF wD := ⟨by decide, by decide, by decide⟩
+example : ValidHist wD histD := by decide +kernel
+example : (wD.run histD).2 = [.ok, .ok, .ok, .ok, .ok, .ok] ∧
+    (wD.run histD).1.env.dfltVals.map Val.mutIds = [[0, 1]] ∧
+    ((wD.run histD).1.roots.map (fun r => r.map Val.mutIds)) =
+      [some [2], some [4, 5], some [8, 7], some [10, 9], some [11], some [13, 14], some [17, 16]] := by decide +kernel
+
+/-! ### the write clause excludes something
+
+An in-place write is logged under the identity its *target value* carries.  Had `__init__` filled the caller's
+positional dict instead of its own kwargs (`_d.setdefault(key, val)` — the seeded change C19-B), or a lax length
+validator popped items off the validated object (C19-r2-C), the model step would be `fill input …`, and the write
+conjunct of `C19_call_frame` would be false: -/
+theorem C19_inplace_write_hits_its_target (i : Nat) (k : Kind) (ks0 ks : List String) (xs0 xs : List Val) (s : St) :
+    i ∈ (fill (.node i k ks0 xs0) ks xs s).2.writes ∧ (fill (.node i k ks0 xs0) ks xs s).2.next = s.next := by
+  simp [fill]
+
+/-- … so a computation that fills an object it was *given* (any id below the allocator) violates the frame -/
+theorem C19_write_to_argument_violates_frame (i : Nat) (k : Kind) (ks : List String) (xs : List Val) (s : St)
+    (hi : i < s.next) (hw : i ∉ s.writes) :
+    ¬ (∀ j ∈ (fill (.node i k [] []) ks xs s).2.writes, j ∈ s.writes ∨ s.next ≤ j) := by
+  intro h
+  rcases h i (by simp [fill]) with h' | h'
+  · exact hw h'
+  · omega
 
 end Utv.C19
